@@ -195,7 +195,11 @@ func recQuota(args []string) int {
 	rep.Extra["events_by_fitness_family"] = byFamily
 	rep.Extra["epochs_with_several_species"] = multi
 	rep.Extra["species_under_stagnation_penalty"] = penalised
-	rep.Extra["aborted"] = aborted
+	rep.Extra["aborted_scenarios"] = len(aborted)
+	if len(aborted) > 4 {
+		aborted = aborted[:4]
+	}
+	rep.Extra["aborted_first"] = aborted
 	code := rep.Write(*repFile)
 	if code == 1 {
 		code = 0
